@@ -239,7 +239,9 @@ class C15:
                 viol.append({"class": "C15.post_multiscale_step_not_full_size", "sig": {}})
         # coarsest level searches user / sf**(n-1)
         left = res["left"]
-        if "disparity_map" in left.data_vars and left["disparity_map"].shape != (w["rows"], w["cols"]):
+        if left is None or "disparity_map" not in getattr(left, "data_vars", {}):
+            viol.append({"class": "C15.no_full_resolution_map_returned", "sig": {"num_scales": n}})
+        elif left["disparity_map"].shape != (w["rows"], w["cols"]):
             viol.append({"class": "C15.returned_map_size", "sig": {}, "got": list(left["disparity_map"].shape)})
         for side in ("left", "right"):
             r = probes.datasets_equal(before[side], ds[side])
